@@ -243,9 +243,9 @@ func main() {
 		Assumptions: []string{"listing and cursor read through the hook disassemble.VerifListing", "regexp.CompilePOSIX of the standard library as matching reference"},
 		Cases: func(t string) int {
 			if t == "thorough" {
-				return 100000
+				return 600000
 			}
-			return 4000
+			return 10000
 		},
 		Floor: func(t string) int {
 			if t == "thorough" {
